@@ -10,6 +10,7 @@ nothing, refused procedures have no effect.
 import GoNfsd.Lemmas.Lookup
 import GoNfsd.Lemmas.BlockMap
 import GoNfsd.Lemmas.Names
+import GoNfsd.Lemmas.Rename
 
 namespace GoNfsd.Props.C02
 open GoNfsd.Model.Fs GoNfsd.Gen.Consts
@@ -156,6 +157,33 @@ theorem removed_name_is_gone (u : Bool) (sz : Nat) (ops : List (Op × Choice)) (
     (h : doRemove (run (mkfs u sz) ops).1 dfh name isdir = (s', .done)) :
     lookupIn (s'.get d) name = none :=
   GoNfsd.Model.Fs.removed_disappear _ s' dfh name isdir d (run_NU _ ops (mkfs_NU u sz)) hres h
+
+/-- RENAME moves the name: in any reachable state, after an acknowledged RENAME a LOOKUP of the
+    new name (in the target directory) finds the object the old name denoted, and — unless both
+    names are the same name in the same directory, or already denoted that one object — a LOOKUP of
+    the old name finds nothing.  (An existing target is unlinked first; source and target
+    directory may be the same; the slot chosen for the new entry is arbitrary.) -/
+theorem rename_then_lookup (u : Bool) (sz : Nat) (ops : List (Op × Choice)) (c : Choice)
+    (ffh fname tfh tname : Bytes) (s' : FS)
+    (h : doRename (run (mkfs u sz) ops).1 c ffh fname tfh tname = (s', .done)) :
+    ∃ fd td fino fidx, renameDirs (run (mkfs u sz) ops).1 ffh tfh = some (fd, td) ∧
+      lookupIn ((run (mkfs u sz) ops).1.get fd) fname = some (fino, fidx) ∧
+      (lookupIn (s'.get td) tname).map (·.1) = some fino ∧
+      (¬ (fd = td ∧ fname = tname) →
+        ¬ (fd = td ∧ (lookupIn ((run (mkfs u sz) ops).1.get td) tname).map (·.1) = some fino) →
+        lookupIn (s'.get fd) fname = none) :=
+  GoNfsd.Model.Fs.renamed _ c ffh fname tfh tname s' (run_NU _ ops (mkfs_NU u sz)) h
+
+/-- Non-vacuity: a RENAME across directories over an existing target is acknowledged. -/
+example :
+    (match (doRename (run (mkfs true 100000)
+      [(.mkdir (mkFh 1 1) [97], { inum := 2, slot := 2 }),
+       (.create (mkFh 2 1) [102] 0, { inum := 3, slot := 2 }),
+       (.create (mkFh 1 1) [103] 0, { inum := 4, slot := 3 })]).1
+      { slot := 3 } (mkFh 2 1) [102] (mkFh 1 1) [103]).2 with
+     | .done => true
+     | _ => false) = true := by
+  decide
 
 /-! ### block level (model M7, tied to the code by the `blockmap` correspondence) -/
 
